@@ -29,7 +29,7 @@ CHECKS = {
         "(reference writer + reference interpreter), into empty and pre-filled writers. Packets: "
         "write()/family()/action(). Metamorphic: "
         "spelling boolean defaults explicitly must not change generated code or bytes. Sampled, not "
-        "exhaustive: ~3k trees / ~20k objects quick, ~40k trees thorough.",
+        "exhaustive: ~4.8k trees / ~30k objects quick, ~40k trees thorough.",
         "Trusted: vlib/refinterp.py + refio.py as the eo-protocol semantics (silent points follow the "
         "unchanged tree, DESIGN 3.4); degenerate constructs of DESIGN 4.1 are not generated.",
         "DESIGN.md 5/C02",
@@ -79,7 +79,7 @@ CHECKS = {
         "subprocess under a drawn PYTHONHASHSEED (half of them in the plain C locale, four spellings of the input "
         "and output paths); outputs must be byte-identical. A fresh interpreter then "
         "imports eolib and checks every declared type (class, __module__, exported from its public "
-        "subpackage and from eolib). Sampled: ~480 trees quick, ~4000 thorough. Two open known findings "
+        "subpackage and from eolib). Sampled: ~800 trees quick, ~5000 thorough. Two open known findings "
         "(import cycles caused by the star-importing package layout) are pinned and excluded by construction.",
         "Trusted: the harness' own naming convention (spec.pascal_to_snake) for expected module paths; "
         "walk orders are simulated; one interpreter (3.12.1).",
@@ -91,7 +91,7 @@ CHECKS = {
         "Generated wire-unambiguous spec trees are fed to the real generator; every drawn valid object the "
         "format can carry (decided by the reference interpreter's own round trip) is serialised with a fresh "
         "writer and deserialised with a fresh reader; result must equal the original field by field, consume "
-        "exactly the bytes written, and report byte_size (nested too). Sampled: ~2.4k trees / ~19k objects "
+        "exactly the bytes written, and report byte_size (nested too). Sampled: ~4k trees / ~30k objects "
         "quick, ~40k trees thorough.",
         "Trusted: the reference interpreter only as domain filter (a too-permissive reference could cause a "
         "false alarm, a too-strict one only lowers yield; C02/C03 compare it with the code directly).",
@@ -104,7 +104,7 @@ CHECKS = {
         "truncation/corruption/junk/random bytes, in plain and chunked entry mode; the returned object, "
         "byte_size and final position must equal the reference interpreter's; only the documented ValueError "
         "may escape; results must not depend on bytes outside the reader's slice; a deterministic operation "
-        "budget detects non-progressing loops. Sampled: ~2k trees / ~60k inputs quick, ~25k trees thorough.",
+        "budget detects non-progressing loops. Sampled: ~3.2k trees / ~90k inputs quick, ~25k trees thorough.",
         "Trusted: vlib/refinterp.py + RefReader as the reading rules; inputs needing > 20,000 reference loop "
         "iterations are skipped and counted.",
         "DESIGN.md 5/C03",
@@ -185,8 +185,8 @@ CHECKS = {
         "(identity for declared, isinstance/eq/hash/name/value/int/dict-key for undeclared, member set unchanged) "
         "checked after every step, also on a twin class, beside a sibling enum, under a member-less base and after "
         "short-lived enum classes have been collected; every integer 0..64008 for 8 fixed and several drawn enums. Part (b): the enum "
-        "classes of ~640 (quick) / ~8000 (thorough) generated protocol packages go through the same oracle; "
-        "read-then-write of unknown ordinals is exercised by C01/C03.",
+        "classes of ~640 (quick) / ~8000 (thorough) generated protocol packages go through the same oracle, and messages carrying undeclared ordinals are read and written back by the generated code; "
+        "read-then-write of unknown ordinals is also exercised by C01/C03.",
         "Trusted: Python int semantics as the model.",
         "DESIGN.md 5/C14",
     ),
@@ -196,7 +196,7 @@ CHECKS = {
         "For generated spec trees, valid objects are changed by one violating edit at a drawn member at any depth "
         "(required None, wrong fixed length, padded too long, beyond length-field limit, integer/ordinal/element at "
         "or above the limit, wrong-kind or falsy case data, an element in a zero-length array); where the reference serializer reaches the edit, the generated "
-        "serialize must raise SerializationError or ValueError and never return. Sampled: ~2.4k trees / ~13k "
+        "serialize must raise SerializationError or ValueError and never return. Sampled: ~4k trees / ~21k "
         "refusals quick, ~40k trees thorough.",
         "Trusted: the reference interpreter to decide which edits are reached; constructor-refused objects are skipped.",
         "DESIGN.md 5/C16",
@@ -207,7 +207,7 @@ CHECKS = {
         "Each case verifies that the real generator accepts the valid tree and rejects the edited tree (any "
         "exception). The catalogue covers the rules named in the property at top level, inside <chunked>, inside "
         "switch cases, case-in-chunk and in every file, with variants (respelled duplicates, constants after "
-        "optional members, shorter padded literals). Sampled: ~4.8k pairs quick, ~64k thorough.",
+        "optional members, shorter padded literals). Sampled: ~8k pairs quick, ~64k thorough.",
         "Trusted: each catalogue edit really violates the named rule (reviewed; only rules named in the statement).",
         "DESIGN.md 5/C17",
     ),
@@ -220,7 +220,7 @@ CHECKS = {
         "AttributeError, arrays must be tuples unaffected by the caller (lists, generators, read-only sequence "
         "views, tuples), serialize before/after must agree and must leave every field as it was, and nothing reachable from a deserialised instance may "
         "change when other data is deserialised later. "
-        "Sampled: ~2k trees / ~10k instances / ~400k setattr attempts quick.",
+        "Sampled: ~3.2k trees / ~16k instances / ~600k setattr attempts quick.",
         "Trusted: nothing beyond the generator of inputs; private attributes and caller-owned bytearrays for blobs "
         "are deliberately not asserted.",
         "DESIGN.md 5/C19",
@@ -233,7 +233,7 @@ CHECKS = {
         "fault-free and with a writer/reader that raises at its k-th operation for drawn k over the whole run; the "
         "mode at exit (return or raise) must equal the mode at entry; on fault-free runs the sequence of (nested "
         "class, mode at entry) must equal the reference interpreter's call tree (the 'consequently' clause). "
-        "Sampled: ~2k trees / ~48k observed top-level calls quick, ~25k trees thorough.",
+        "Sampled: ~3.2k trees / ~75k observed top-level calls quick, ~25k trees thorough.",
         "Trusted: faults are injected at the public writer/reader operations; the wrapper observes the public mode "
         "properties.",
         "DESIGN.md 5/C15",
@@ -245,7 +245,7 @@ CHECKS = {
         "interpreter imports it and then eolib; walking attributes from eolib along every module path must yield "
         "sys.modules[path], and every public name (static: ast-derived honouring __all__; generated: the tree's "
         "types) must be one object in its defining module, its home subpackage and eolib; one first import per "
-        "tree is made from a zip archive of the package. Sampled: ~160 trees x "
+        "tree is made from a zip archive of the package. Sampled: ~400 trees x "
         "<= 4 first imports quick, ~2400 trees thorough.",
         "Trusted: ast-derived list of public names; one interpreter (3.12.1).",
         "DESIGN.md 5/C20",
